@@ -58,7 +58,7 @@ def unwindset(n):
     # loops with fixed trip counts in the harness/oracle; engine piece-list scans are bounded by the material size
     return {'pos_build.0': 65, 'pos_build.1': n + 1, 's_king_sq.0': 65, 's_attacked.0': 9, 's_attacked.1': 9, 's_attacked.2': 9, 's_attacked_bb.0': 65, 'sb_fill.0': 8, 's_path_clear.0': 7,
             'zobrist_tables_arbitrary.0': 17, 'zobrist_tables_arbitrary.1': 9,
-            'check_ri.0': 65, 'check_ri.1': 14, 'check_ri.2': 7, 'check_ri.3': 9, 'check_ri.4': 9, 'check_ri.5': 14, 'xor_cells.0': 6, 'xor_cells.1': 6, 'only_touched_differ.0': 65, 'only_touched_differ.1': 6, 'make_case.2': 65, 'make_case.0': 65, 'make_case.1': 65, 'null_case.0': 65, 'null_case.1': 65,
+            'check_ri.0': 65, 'check_ri.1': 14, 'check_ri.2': 7, 'check_ri.3': 9, 'check_ri.4': 9, 'check_ri.5': 14, 'xor_cells.0': 6, 'xor_cells.1': 6, 'only_touched_differ.0': 65, 'only_touched_differ.1': 6, 'make_case.2': 65, 'make_case.3': 65, 'make_case.4': 65, 'make_case.0': 65, 'make_case.1': 65, 'null_case.0': 65, 'null_case.1': 65,
             '_ZN6engine8Position12remove_pieceENS_6SquareE.0': n + 1, '_ZN6engine8Position10move_pieceENS_6SquareES1_.0': n + 1, 'fill7.0': 8}
 
 
